@@ -805,7 +805,9 @@ func c02ArgPath(c *Ctx) {
 			if len(an.CallsIn(fn, func(_ ssa.CallInstruction, ci an.CalleeInfo) bool { return ci.FullName() == pkgGraphql+".CoerceList" })) == 0 {
 				continue
 			}
-			for _, call := range an.CallsIn(fn, func(_ ssa.CallInstruction, ci an.CalleeInfo) bool { return ci.FullName() == pkgGraphql+".WithPathContext" }) {
+			for _, call := range an.CallsIn(fn, func(_ ssa.CallInstruction, ci an.CalleeInfo) bool {
+				return ci.FullName() == pkgGraphql+".WithPathContext"
+			}) {
 				total++
 				vc, _ := call.(*ssa.Call)
 				bad := ""
